@@ -71,6 +71,12 @@ func LoadBackend(env *Env) func(*cobra.Command, []string) error {
 
 		err = CacheBuildProgressBar(env, events)
 		if err != nil {
+			// Cobra doesn't run RunE (hence CloseBackend) when PreRunE fails: give the lock back
+			// here. Closing leaves the lock of another process alone.
+			for range events {
+			}
+			_ = env.Backend.Close()
+			env.Backend = nil
 			return err
 		}
 
@@ -103,6 +109,9 @@ func LoadBackendEnsureUser(env *Env) func(*cobra.Command, []string) error {
 
 		_, err = identity.GetUserIdentity(env.Repo)
 		if err != nil {
+			// same as above: RunE and CloseBackend will not run
+			_ = env.Backend.Close()
+			env.Backend = nil
 			return err
 		}
 
